@@ -73,6 +73,33 @@ func (a *Act) intrinsic(name string, fv FuncV, args []Value) (Value, bool) {
 			arr.e[i] = ConcStr(p)
 		}
 		return SliceV{arr: ptrTo(a.alloc(arr)), len: BV(64, uint64(len(parts))), cap: BV(64, uint64(len(parts)))}, true
+	case "strings.FieldsFunc", "strings.Fields":
+		s0 := args[0].(StrV)
+		if !s0.conc {
+			panic(unsupported(name + " on a symbolic string"))
+		}
+		var parts []string
+		if name == "strings.Fields" {
+			parts = strings.Fields(s0.s)
+		} else {
+			fn := args[1].(FuncV)
+			parts = strings.FieldsFunc(s0.s, func(r rune) bool {
+				res := a.callFunc(fn, []Value{BV(32, uint64(uint32(r)))})
+				t, ok := res.(*Term)
+				if !ok || !t.IsConst() {
+					panic(unsupported("FieldsFunc predicate is not decided on a concrete rune"))
+				}
+				return t.IsTrue()
+			})
+		}
+		arr := ArrayV{e: make([]Value, len(parts))}
+		for i, p := range parts {
+			arr.e[i] = ConcStr(p)
+		}
+		if len(parts) == 0 {
+			return SliceV{arr: nilPtr(), len: BV(64, 0), cap: BV(64, 0)}, true
+		}
+		return SliceV{arr: ptrTo(a.alloc(arr)), len: BV(64, uint64(len(parts))), cap: BV(64, uint64(len(parts)))}, true
 	case "strings.Title":
 		s := args[0].(StrV)
 		if s.conc {
